@@ -44,6 +44,16 @@ theorem source_shape :
        ["left_token_pos", "left_token_pos", "usize::MAX"],
        ["tokens.len()", "tokens.len()", "usize::MAX"]] ∧
     userArmLets = ["output.len()", "pos + tokens_added", "tokens.len() - remaining.len()"] ∧
+    -- from substitution to splice (`applyLoop`, `user` arm: `substitute`, then `applyLoop (disable env mi) body'` on
+    -- EVERY path, then `splice`): no guard around the rescan of the substituted replacement list (seeded mutant C12-3)
+    userArmStatements =
+      ["let mut output = Vec::with_capacity(macro_def.tokens.len())",
+       "for token in &macro_def.tokens { if let Token::MacroArg(i) = token.0 { output.extend_from_slice(&args[i as usize]) } else { output.push(token.clone()); } }",
+       "assert!(!macro_disabled[macro_index])", "macro_disabled[macro_index] = true",
+       "let output = apply_macros_internal(output, macro_defs, macro_disabled, false, source_manager)?",
+       "assert!(macro_disabled[macro_index])", "macro_disabled[macro_index] = false",
+       "assert!(end > pos)", "let tokens_added = output.len()", "tokens.splice(pos..end, output)"] ∧
+    bodyAlwaysRescanned = true ∧
     searchPositionUses =
       ["search_pos.early_function_pos",
        "search_pos.last_macro_function_index == macro_index && i < search_pos.next_pos",
@@ -71,7 +81,7 @@ theorem source_shape :
     -- fix 3c81ed5 (`initialMacros`: `hasLineBreak`)
     apiDefineLineBreakRejected = true := by
   refine ⟨by decide, by decide, by decide, by decide, by decide, by decide, by decide, ?_, by decide, by decide,
-    by decide, by decide, by decide, by decide, by decide, by decide, by decide, by decide⟩
+    by decide, by decide +kernel, by decide, by decide, by decide, by decide, by decide, by decide, by decide, by decide⟩
   intro t; cases t <;> decide
 
 /-! ## Termination -/
